@@ -209,8 +209,15 @@ func snapshotMapWrites(c *Ctx, fns []*ssa.Function, snapType string) []ssa.Instr
 			case *ssa.MapUpdate:
 				m = c.E(in.Map)
 			case ssa.CallInstruction:
-				if b, ok := in.Common().Value.(*ssa.Builtin); ok && b.Name() == "delete" {
+				if b, ok := in.Common().Value.(*ssa.Builtin); ok && (b.Name() == "delete" || b.Name() == "clear") && len(in.Common().Args) > 0 {
 					m = c.E(in.Common().Args[0])
+				}
+				// the standard maps package's writers of their first argument
+				if sc := in.Common().StaticCallee(); sc != nil && sc.Object() != nil && sc.Object().Pkg() != nil && sc.Object().Pkg().Path() == "maps" && len(in.Common().Args) > 0 {
+					switch sc.Object().Name() {
+					case "Copy", "Insert", "DeleteFunc":
+						m = c.E(in.Common().Args[0])
+					}
 				}
 			}
 			if m == nil {
@@ -605,6 +612,18 @@ func freshMapMisuse(c *Ctx, mm ssa.Value, pubPoint ssa.Instruction, allowedCall 
 			}
 			if readOnlyMapParam(c, u, mm) {
 				return // handed to a helper that only reads it
+			}
+			if sc := u.Common().StaticCallee(); sc != nil && sc.Object() != nil && sc.Object().Pkg() != nil && sc.Object().Pkg().Path() == "maps" {
+				// the standard maps package keeps no reference; Copy/Insert/DeleteFunc write their first argument
+				writes := false
+				switch sc.Object().Name() {
+				case "Copy", "Insert", "DeleteFunc":
+					writes = len(u.Common().Args) > 0 && u.Common().Args[0] == mm
+				}
+				if writes && MayFollow(pubPoint, u) {
+					bad = "map is written by maps." + sc.Object().Name() + " at " + c.pos(u.Pos()) + " after it was published"
+				}
+				return
 			}
 			if bi, ok := u.Common().Value.(*ssa.Builtin); ok {
 				if bi.Name() == "delete" && MayFollow(pubPoint, u) {
